@@ -53,5 +53,5 @@ def run(env: Env) -> Outcome:
     suite.live_runs(env, out, env.budget(250, 5000), [monitors.mon_c02], gen_kwargs={"family": "wait"})
     # saturated steps whose running invocations give their worker back without a step result (suspend in wait_for_event, fail into a
     # delayed retry, fail for good into a @catch_error handler) while later events sit in the queue: the hand-over of the freed worker
-    suite.live_runs(env, out, env.budget(80, 1600), [monitors.mon_c02], gen_kwargs={"family": "handover"})
+    suite.live_runs(env, out, env.budget(50, 1000), [monitors.mon_c02], gen_kwargs={"family": "handover"})
     return out
